@@ -23,6 +23,7 @@ EXPLANATION = (
     "C23.4 put_records filters on has_records before adding and Tag.is_current is recomputed after import; "
     "C23.5 every *_child_edges walker iterates filter_in(<session.query(...) with only row-preserving methods (query, outerjoin)>, owner column, ids) "
     "over all the ids it is given and yields unconditionally, except for NULL skips of the yielded id and seen-set de-duplication."
+    " C23.5 also: a `continue`/`break`/`return` inside a walker's row loop may skip a later yield only as a NULL skip of that yield's own column or as a seen-set skip on a column of the same model (positional query-column map); a de-duplication on Argument.* must not skip the ArgumentResult.* yield of the same joined row."
 )
 
 DB = "redun/backends/db/__init__.py"
